@@ -17,6 +17,15 @@ def calls_matching(fb, body, regex):
     return [c for c in fb.calls(body) if not c.indirect and (r.search(c.rpath or "") or r.search(c.path or ""))]
 
 
+def deep_calls_matching(fb, body, regex):
+    """calls_matching over the body and the closures it creates (a loop body that became the closure of an iterator adaptor)"""
+    out = list(calls_matching(fb, body, regex))
+    for k, cb in fb.bodies.items():
+        if cb.get("kind") == "Closure" and (cb.get("parent") == body["key"] or k.startswith(body["key"] + "::")):
+            out += calls_matching(fb, cb, regex)
+    return out
+
+
 def one_call(fb, body, regex, what=None):
     cs = calls_matching(fb, body, regex)
     if len(cs) != 1:
@@ -285,6 +294,25 @@ def _edge_only(body, D, S):
     return all(S in g["dom"].get(p, ()) for p in others)
 
 
+def returned_directly(body, call):
+    """the call's value is the function's own result: its destination is `_0`, or is moved into `_0` through plain moves.
+    Returns the set of blocks that put the value into `_0` (empty = not returned directly)."""
+    if call.dest is None or call.dest.get("p"):
+        return set()
+    cur, hops = call.dest["l"], 0
+    if cur == 0:
+        return {call.bb}
+    while hops < 6:
+        hops += 1
+        nxt = [(i, s["d"]["l"]) for i, blk in enumerate(body["blocks"]) for s in blk["s"] if s["r"].get("k") == "use" and s["r"]["op"].get("k") in ("move", "copy") and s["r"]["op"]["pl"]["l"] == cur and not s["r"]["op"]["pl"].get("p") and not s["d"].get("p")]
+        if len(nxt) != 1:
+            return set()
+        if nxt[0][1] == 0:
+            return {nxt[0][0]}
+        cur = nxt[0][1]
+    return set()
+
+
 def result_used(fb, ctx, body, call, rule, instance, key):
     """USED: the Result/bool of this call is consumed by a branch (directly or through `?`) or returned to the caller."""
     uses = result_branches(fb, body, call)
@@ -411,6 +439,11 @@ def deps(fb, body):
                 elif k == "agg":
                     for o in r["ops"]:
                         new |= op_deps(o)
+                    if r.get("ak") == "closure" and r.get("closure") in fb.bodies:
+                        # what calling the closure may yield: the calls of its body (`sign(.., || generate_payload(..))`)
+                        for c_ in fb.calls(fb.bodies[r["closure"]]):
+                            if not c_.indirect:
+                                new.add("call:" + short(c_.rpath or c_.path))
                 d = s["d"]["l"]
                 if not new <= dep[d]:
                     dep[d] |= new
